@@ -20,6 +20,8 @@ use rssl_typer::verif::evaluate_constexpr;
 pub mod pos;
 #[path = "c13_mix.rs"]
 pub mod mix;
+#[path = "c13_inst.rs"]
+pub mod inst;
 
 // ------------------------------------------------------------------------------------------
 // own tree (what the request says), independent of the ir types
@@ -1757,6 +1759,7 @@ pub fn run(args: &Args, out: &mut Out) {
                 }
                 ["C13.pos", pos, src, ..] => run_position(&w, pos, src, out, &mut hist),
                 ["C13.mix", sx, ..] => mix::run_mix(&w, sx, out, &mut hist),
+                ["C13.inst", shape, atoms, ..] => inst::run_inst(&w, shape, atoms, out, &mut hist),
                 ["C13.enum", members, ..] => run_enum(&w, members, out, &mut hist),
                 ["C13.enumhyp", members, ..] => run_enum(&w, members, out, &mut hist),
                 ["C13.hyp", _tree, rest @ ..] => {
@@ -1889,6 +1892,10 @@ pub fn run(args: &Args, out: &mut Out) {
     let mut mixh = Hist::default();
     mix::generate(&w, &mut rng, thorough, if thorough { 10 } else { 1 }, out, &mut mixh);
     out.stat(&format!("{{\"mixed_kinds\":{}}}", mixh.json()));
+    // (8) several instantiations of one template in one compilation
+    let mut insth = Hist::default();
+    inst::generate(&w, &mut rng, thorough, out, &mut insth);
+    out.stat(&format!("{{\"instantiations\":{}}}", insth.json()));
     out.stat(&format!("{{\"positions\":{}}}", posh.json()));
     out.stat(&format!(
         "{{\"direct_ir\":{},\"arbitrary_ir\":{},\"through_type_checker\":{}}}",
